@@ -36,3 +36,14 @@ _s("C08", "Exploration by differential runtime monitoring: two live instances, G
 _s("C09", "Exploration by runtime monitoring: search_cycle results of bfs/dfs/pfs on all four flavours against the model's shortest closed walk through the root in the accepted (half-)edge graph, with simplicity and minimality checks on directed results.", "DESIGN.md §5 C09", "reference-model monitor (shortest cycle through root) + cycle validity checks")
 _s("C10", "Exploration by runtime monitoring: orderings are decided by exact 'some DFS produces this' procedures (preorder: linear stack simulation; postorder: back-tracking with budget, necessary conditions beyond and counted separately) on the observed graph.", "DESIGN.md §5 C10", "exact DFS-order decision procedures as runtime oracles over enumerated + random graphs")
 _s("C11", "Exploration by runtime monitoring: scc() of the real containers against Tarjan on the observed graph for every digraph on <=3 (quick) / <=4 (thorough) nodes, several container instances (hash orders) and insertion orders each, plus non-simple-component family and random graphs.", "DESIGN.md §5 C11", "reference-model monitor (Tarjan partition) across container instances / iteration orders")
+
+GEN_NOTE = "Trusted base: the harness oracle for this property (named in technique), the observation function, rustc, serde_json/serde_cbor where used. Holds for the executions performed: exhaustive inside the stated bounds, sampled beyond."
+def _g(pid, text, ref, tech):
+    META[pid] = {"level_text": text, "design_ref": ref, "level_note": GEN_NOTE, "technique": tech}
+
+_g("C12", "Exploration by runtime monitoring: real serde_json and serde_cbor round trips of all four containers on every multigraph in the bound and random graphs, several container instances (hash orders) each; the result is compared with the original through the observation function and must be a fixed point of a second trip; String-keyed instantiations with hostile key strings in addition.", "DESIGN.md §5 C12", "round-trip monitor: observation of de(ser(G)) vs observation of G, fixed-point check, across container instances")
+_g("C13", "Exploration by runtime monitoring with fault injection into documents: enumerated structural mutations at every position of valid documents, truncation at every byte, random byte/token mutations and synthetic documents are fed to the real deserialisers; panics are caught, hangs decided on CPU time, accepted graphs are walked for the invariants and compared with what a lenient parse of the same bytes declares.", "DESIGN.md §5 C13", "hostile-input monitor: panic/hang detection + invariant walker + declared-content oracle over mutated documents")
+_g("C15", "Exploration by differential runtime monitoring: generated programs over the common API are executed on the plain and the sync flavour side by side and their transcripts compared call by call.", "DESIGN.md §5 C15", "differential transcript monitor (plain vs sync flavour) over generated programs + enumerated (state, op) pairs")
+_g("C18", "Exploration by runtime monitoring: container histories (enumerated to a depth, random beyond) are compared call by call with a key->node-object map model; roots/leaves/orphans with the members' own predicates; DOT text is parsed and compared with members, iterated edges and callback attributes.", "DESIGN.md §5 C18", "reference-model monitor (map model, identity by payload instance) + DOT text checker")
+_g("C19", "Exploration by runtime monitoring with three independent oracles: drop-counting payloads checked after every single drop of every handle in enumerated/random drop orders, valgrind memcheck leak check and Miri's leak/UB report on the same sub-command.", "DESIGN.md §5 C19", "drop-counter monitor (exactly-once release, no release while mentioned) + valgrind memcheck leak check + Miri")
+_g("C20", "Exploration by runtime monitoring: every single-operation script fired at every step of every kind of edge loop and traversal closure on small graphs (random multi-op scripts beyond), with a model kept current by the harness so that every yielded edge is checked for existence at the moment of the yield; panics and re-entrant locks (hook) are caught, termination is a logical step bound.", "DESIGN.md §5 C20", "online trace monitor at every yield/closure call against a harness-maintained model + lock-hook re-entrancy monitor + logical step bound")
